@@ -353,3 +353,102 @@ def r_loop(A, ctx, scope, rule="R-LOOP"):
                        loc=loc(f, st))
     ctx.floor(rule, n, scope.get("floor", 100))
     ctx.floor(rule + "/while", w, 2)
+
+
+def r_nansafe(A, ctx, scope, rule="R-NANSAFE"):
+    ctx.rule(rule, "exits need positive evidence: in solver code every `break` guarded by a numeric comparison sits on "
+             "the side that is taken when the comparison is TRUE (`if crit <= tol: break`, `if decrease < 0: break`); "
+             "a NaN criterion (overflow at a trial point) then satisfies no exit test - the line search backtracks, "
+             "the outer loop runs on - whereas `if crit > tol: ... else: break` accepts NaN as convergence / as a "
+             "descent step")
+    n = 0
+    for f in A.prog.all_functions():
+        if not f.module.name.startswith(("skglm.solvers", "skglm.experimental", "skglm.utils.prox_funcs", "skglm.utils.anderson")):
+            continue
+        for node in ast.walk(f.node):
+            if not isinstance(node, ast.If):
+                continue
+            t = node.test
+            cmps = [c for c in ast.walk(t) if isinstance(c, ast.Compare)]
+            if not cmps or any(isinstance(o, (ast.Is, ast.IsNot, ast.In, ast.NotIn)) for c in cmps for o in c.ops):
+                continue
+            if any(isinstance(x, ast.Constant) and isinstance(x.value, str) for c in cmps for x in ast.walk(c)):
+                continue        # string comparisons (strategy names)
+            brk_body = any(isinstance(x, ast.Break) for s_ in node.body for x in ast.walk(s_)
+                           if not isinstance(s_, (ast.For, ast.While)))
+            brk_else = any(isinstance(x, ast.Break) for s_ in node.orelse for x in ast.walk(s_)
+                           if not isinstance(s_, (ast.For, ast.While)))
+            if not (brk_body or brk_else):
+                continue
+            n += 1
+            negated = isinstance(t, ast.UnaryOp) and isinstance(t.op, ast.Not)
+            only_ne = all(isinstance(o, ast.NotEq) for c in cmps for o in c.ops)
+            # break on the false side of a plain comparison, or on the true side of a negated one / of `!=`
+            bad = (brk_else and not brk_body and not negated and not only_ne) or \
+                  (brk_body and not brk_else and (negated or only_ne) and
+                   any(isinstance(o, (ast.Lt, ast.LtE, ast.Gt, ast.GtE, ast.NotEq)) for c in cmps for o in c.ops) and negated)
+            ctx.ob(rule, f"{f.fq}::{norm_src(t)[:60]}", not bad,
+                   what=f"{f.qualname}: the loop is left when `{norm_src(t)[:60]}` is {'false' if brk_else else 'true'}, which is "
+                        "also what a NaN operand gives: a criterion that overflowed (inf - inf at a trial point, a NaN "
+                        "score) is taken for a successful step / for convergence, and NaN coefficients are "
+                        "returned with a stopping value that claims success", loc=loc(f, node))
+    ctx.floor(rule, n, scope.get("floor", 15))
+
+
+def r_loopvar(A, ctx, scope, rule="R-LOOPLEFTOVER"):
+    ctx.rule(rule, "no leftover of the last iteration: in solver kernels a name whose every definition lies inside "
+             "one `for` body (per-coordinate quantities: step size, old value, column) is not read after that "
+             "loop - what it holds there is the value of the last coordinate visited (it depends on the order and "
+             "scale of the features in the working set), and it is undefined when the loop body never ran")
+    n = 0
+    for f in A.prog.all_functions():
+        if not f.module.name.startswith(("skglm.solvers", "skglm.experimental", "skglm.utils.anderson", "skglm.utils.sparse_ops")):
+            continue
+        loops = [lp for lp in ast.walk(f.node) if isinstance(lp, ast.For)]
+        if not loops:
+            continue
+        n += 1
+        defs = {}
+        for st in ast.walk(f.node):
+            tg = []
+            if isinstance(st, ast.Assign):
+                tg = st.targets
+            elif isinstance(st, (ast.AugAssign, ast.AnnAssign)):
+                tg = [st.target]
+            for t in tg:
+                for e in (t.elts if isinstance(t, ast.Tuple) else [t]):
+                    if isinstance(e, ast.Name):
+                        defs.setdefault(e.id, []).append(st)
+        params = set(f.params)
+        bad = None
+        env = A.flow.env.get(f, {})
+        for lp in loops:
+            # coordinate loops only (over the working set, features, groups, tasks, samples, stored
+            # entries of a column): in an iteration-count loop (`range(max_iter)`) the value of the last
+            # iteration is the result
+            it_names = names_in(lp.iter)
+            coord = any(set(env.get(nm, ())) & {"WS", "NF", "NG", "NT", "NS", "GRP_PTR", "GRP_INDICES", "CSC_INDPTR"}
+                        for nm in it_names) or any(k in ast.unparse(lp.iter) for k in (
+                            "ws", "n_features", "n_groups", "n_tasks", "n_samples", "grp_", "indptr"))
+            if not coord:
+                continue
+            inner = [x for s_ in lp.body for x in ast.walk(s_)]
+            inner_ids = {id(x) for x in inner}
+            targets = {x.id for x in ast.walk(lp.target) if isinstance(x, ast.Name)}
+            for v, ds in defs.items():
+                if v in params or v in targets or v.startswith("_"):
+                    continue
+                if not all(id(d) in inner_ids for d in ds):
+                    continue
+                # read after the loop, outside it, in the same enclosing statement list or later
+                for x in ast.walk(f.node):
+                    if isinstance(x, ast.Name) and x.id == v and isinstance(x.ctx, ast.Load) \
+                            and id(x) not in inner_ids and getattr(x, "lineno", 0) > lp.end_lineno:
+                        # not inside another loop body that redefines it first (handled by defs-all-inside test)
+                        bad = (v, lp, x)
+        ctx.ob(rule, f"{f.fq}", bad is None,
+               what=(f"{f.qualname}: `{bad[0]}` is only ever assigned inside the loop at line {bad[1].lineno} "
+                     f"(`for {norm_src(bad[1].target)} in {norm_src(bad[1].iter)[:30]}`) and is read again at line "
+                     f"{bad[2].lineno} after it: that is the value left by the last coordinate visited") if bad else "",
+               loc=loc(f, bad[2]) if bad else None)
+    ctx.floor(rule, n, scope.get("floor", 30))
